@@ -678,7 +678,9 @@ where
             where
                 D: serde::de::Deserializer<'de>,
             {
-                let anchor_id = anchor_store::current_rc_anchor();
+                // `NOT_ANCHORED`: this node has no anchor of its own (never use an enclosing one).
+                let anchor_id = anchor_store::current_rc_anchor()
+                    .filter(|id| *id != anchor_store::NOT_ANCHORED);
                 let existing = match anchor_id {
                     Some(id) => {
                         Some((id, anchor_store::get_rc::<T>(id).map_err(D::Error::custom)?))
@@ -735,7 +737,9 @@ where
             where
                 D: serde::de::Deserializer<'de>,
             {
-                let anchor_id = anchor_store::current_arc_anchor();
+                // `NOT_ANCHORED`: this node has no anchor of its own (never use an enclosing one).
+                let anchor_id = anchor_store::current_arc_anchor()
+                    .filter(|id| *id != anchor_store::NOT_ANCHORED);
                 let existing = match anchor_id {
                     Some(id) => Some((
                         id,
@@ -793,7 +797,9 @@ where
             where
                 D: serde::de::Deserializer<'de>,
             {
-                let anchor_id = anchor_store::current_rc_recursive_anchor();
+                // `NOT_ANCHORED`: this node has no anchor of its own (never use an enclosing one).
+                let anchor_id = anchor_store::current_rc_recursive_anchor()
+                    .filter(|id| *id != anchor_store::NOT_ANCHORED);
                 let existing = match anchor_id {
                     Some(id) => Some((
                         id,
@@ -859,7 +865,9 @@ where
             where
                 D: serde::de::Deserializer<'de>,
             {
-                let anchor_id = anchor_store::current_arc_recursive_anchor();
+                // `NOT_ANCHORED`: this node has no anchor of its own (never use an enclosing one).
+                let anchor_id = anchor_store::current_arc_recursive_anchor()
+                    .filter(|id| *id != anchor_store::NOT_ANCHORED);
                 let existing = match anchor_id {
                     Some(id) => Some((
                         id,
